@@ -425,6 +425,20 @@ def lookupAll (s : St (List Nat)) : M (List (Nat × List Int)) :=
         pure ((k, [r1.1, r2.1, r3.1]) :: tl)
   go s.userid 0
 
+/-- bbs.UUserID.ToRaw: the id of a request copied into a zeroed UserID_t (`copy(raw[:], []byte(u))`: at most 13 bytes),
+rejected unless IsValid — an id longer than IDLEN fills all 13 bytes, has no terminator and is rejected, never cut. -/
+def uuserToRaw (name : List Nat) : Option (List Nat) :=
+  let raw := copyInto idSize name
+  if idValid raw then some raw else none
+
+/-- bbs.CheckExistsUser(name): "invalid" | "none" | "found" (ptt.GetUID = cache.SearchUserRaw of the converted id) -/
+def checkExistsUser (s : St (List Nat)) (name : List Nat) : M String :=
+  match uuserToRaw name with
+  | none => pure "invalid"
+  | some raw => do
+    let (uid, _) ← searchUserRaw realEnv s raw
+    pure (if 1 ≤ uid ∧ uid ≤ (realEnv.MAX : Int) then "found" else "none")
+
 /-- NewSHM's handshake: version first, then size. -/
 def handshake (ver size wantVer wantSize : Int) : String :=
   if ver ≠ wantVer then "errversion" else if size ≠ wantSize then "errsize" else "ok"
